@@ -1221,3 +1221,8 @@ mod tests {
         assert_eq!(paths, expected);
     }
 }
+
+#[cfg(all(kani, olson_sean_k_wax_verif))]
+mod verif_kani {
+    include!(concat!(env!("WAX_VERIF_DIR"), "/kani/walk_mod.rs"));
+}
